@@ -104,7 +104,7 @@ namespace bxdecay0 {
     double aZ           = alpha * z;
     double gamma1       = std::sqrt(1. - aZ * aZ);
     double y            = aZ * we / pe;
-    double a            = decay0_a_from_z(z);
+    double a            = decay0_a_from_z(std::abs(z)); // (z is negative for positrons)
     double R            = r0 * std::exp(std::log(a) / 3.) * me / hbarc;
     double F0           = 4. * std::exp(2. * (gamma1 - 1.) * std::log(2. * pe * R)) * std::exp(M_PI * y);
     double g2           = gsl_sf_gamma(2. * gamma1 + 1.);
